@@ -502,8 +502,10 @@ theorem coreR (cx : Cx) (J : St → Prop) (g0 : Nat) (hJ : JOk cx g0 J) : ∀ f 
         have hno : ∀ j, ¬ ∃ a, a ∈ ([] : List (List COp)) ∧ Sem cx.env a K str j := fun j ⟨a, ha, _⟩ => by cases ha
         refine ⟨Ext.refl st, ?_, ?_, fun le hle => ⟨le, hle, Nat.le_refl _⟩, fun _ j hj => absurd hj (hno j), Or.inl rfl,
           fun h => h⟩
-        · cases got <;> rcases herr0 with h0 | ⟨h0, h1⟩ <;> simp_all [NOMATCH]
-        · cases got <;> rcases herr0 with h0 | ⟨h0, h1⟩ <;> simp_all [NOMATCH]
+        · clear ihd ihn ihs ihg ihr iha iha2 ihe hJ
+          cases got <;> rcases herr0 with h0 | ⟨h0, h1⟩ <;> simp_all [NOMATCH]
+        · clear ihd ihn ihs ihg ihr iha iha2 ihe hJ
+          cases got <;> rcases herr0 with h0 | ⟨h0, h1⟩ <;> simp_all [NOMATCH]
       | cons a more =>
         simp only [altLoop] at h
         have hmore : ∀ b, b ∈ more → WFG (st.fr id).gno b := fun b hb => hwfa b (List.mem_cons_of_mem _ hb)
@@ -586,7 +588,71 @@ theorem coreR (cx : Cx) (J : St → Prop) (g0 : Nat) (hJ : JOk cx g0 J) : ∀ f 
                   (got || decide ((if got then 0 else NOMATCH) = 0)) st1 (if got' then 0 else err) st' := by
                 rw [hgg]; exact p2
               exact Post2.congr hsplit (Post2.seq p1' p2'')
-    · sorry
-    · sorry
+    · -- what altLoop returns
+      intro alts str id K err0 got st err got' st' hwfa hch herr0 h hg
+      cases alts with
+      | nil =>
+        simp only [altLoop] at h
+        obtain ⟨rfl, h2⟩ := Prod.mk.inj h
+        obtain ⟨rfl, rfl⟩ := Prod.mk.inj h2
+        rcases herr0 with h0 | ⟨h0, h1⟩
+        · exact ⟨Or.inr h0, fun h' => by rw [h0] at h'; exact absurd h' (by decide)⟩
+        · exact ⟨Or.inl h0, fun _ _ => h1⟩
+      | cons a more =>
+        simp only [altLoop] at h
+        have hmore : ∀ b, b ∈ more → WFG (st.fr id).gno b := fun b hb => hwfa b (List.mem_cons_of_mem _ hb)
+        cases h1 : doOps cx f a str (some id) st with
+        | mk e1 st1 =>
+          rw [h1] at h
+          simp only [] at h
+          by_cases hsucc : e1 = 0 ∧ cx.strict = true
+          · rw [if_pos hsucc] at h
+            have p1 := ihd a str id K st e1 st1 (hwfa a List.mem_cons_self) hch h1
+              (by rw [hsucc.1]; exact ⟨by decide, by decide⟩)
+            obtain ⟨st1', hst1'⟩ : ∃ s : St, s = st1.setFr id { st1.fr id with end_ := none } := ⟨_, rfl⟩
+            rw [← hst1'] at h
+            have k1 : Keeps st1 st1' := by rw [hst1']; exact keeps_setFr st1 id _ rfl
+            have hgid : (st1'.fr id).gno = (st.fr id).gno := by
+              rw [k1.gno, (p1.same.feq id hch.lt).gno]
+            exact iha2 more str id K e1 true st1' err got' st' (by rw [hgid]; exact hmore)
+              ((hch.ext p1.same).ext k1.ext) (Or.inr ⟨hsucc.1, rfl⟩) h hg
+          · rw [if_neg hsucc] at h
+            by_cases hnm : e1 ≠ NOMATCH
+            · rw [if_pos hnm] at h
+              obtain ⟨rfl, h2⟩ := Prod.mk.inj h
+              obtain ⟨rfl, rfl⟩ := Prod.mk.inj h2
+              have p1 := ihd a str id K st e1 st1 (hwfa a List.mem_cons_self) hch h1 hg
+              have he0 : e1 = 0 := p1.code.resolve_right hnm
+              exact ⟨Or.inl he0, fun _ hs => absurd ⟨he0, hs⟩ hsucc⟩
+            · rw [if_neg hnm] at h
+              have he1 : e1 = NOMATCH := Decidable.not_not.mp hnm
+              have p1 := ihd a str id K st e1 st1 (hwfa a List.mem_cons_self) hch h1
+                (by rw [he1]; exact ⟨by decide, by decide⟩)
+              have hgid : (st1.fr id).gno = (st.fr id).gno := (p1.same.feq id hch.lt).gno
+              exact iha2 more str id K e1 got st1 err got' st' (by rw [hgid]; exact hmore)
+                (hch.ext p1.same) (Or.inl he1) h hg
+    · -- matchGend
+      intro str g K st err st' hch hne h hg
+      cases hch with
+      | root h1 h2 => exact absurd h2 hne
+      | @nest _ p k h1 h2 h3 h4 h5 h6 h7 =>
+        simp only [matchGend] at h
+        simp only [kontOf]
+        by_cases hpr : (str == (st.fr g).start && decide ((st.fr g).count > 0) &&
+            decide ((st.fr g).count ≥ (st.fr g).min)) = true
+        · rw [if_pos hpr] at h
+          obtain ⟨rfl, rfl⟩ := Prod.mk.inj h
+          refine Post2.none st ?_
+          intro j hj
+          apply (Sem.gend_iff.mp hj).1
+          simp only [Bool.and_eq_true, beq_iff_eq, decide_eq_true_eq] at hpr
+          exact ⟨hpr.1.1, hpr.1.2, hpr.2⟩
+        · rw [if_neg hpr] at h
+          have hnp : ¬ (str = (st.fr g).start ∧ 0 < (st.fr g).count ∧ (st.fr g).min ≤ (st.fr g).count) := by
+            intro hc
+            apply hpr
+            simp only [Bool.and_eq_true, beq_iff_eq, decide_eq_true_eq]
+            exact ⟨⟨hc.1, hc.2.1⟩, hc.2.2⟩
+          sorry
 
 end Usual.C04.CM
